@@ -15,10 +15,10 @@ META = {
     "proved to be (4vv^T-I)/3, whose top eigenvector is +-v); about-centre constructors keep the centre fixed and act "
     "as the plain transform on offsets; Scale() returns UniformScale exactly when all factors are equal (clearly "
     "different factors give NonUniformScale, zeros are refused); tcoords<->image coordinate transforms are mutual "
-    "inverses mapping the unit square's corners to the corner pixels with the vertical axis flipped, for a symbolic image shape.",
+    "inverses mapping the unit square's corners to the corner pixels with the vertical axis flipped (image shapes from a stated list, points symbolic).",
     "bounds": ["angles: all points of the unit circle", "3-D axis/angle: 8 concrete rotations x symbolic random draw in [0,1)^3",
                "about-centre: PointCloud/TriMesh of 3-4 symbolic points (2-D and 3-D), images of 3 concrete shapes",
-               "image shapes for tcoords: symbolic integers 2..512"],
+               "image shapes for tcoords: a stated list of 3-5 concrete shapes (a symbolic shape made the mixed integer/real queries unreliable)"],
     "stubs": ["cos/sin/tan of an Angle -> its (c,s) pair; deg2rad/rad2deg re-tag the unit; arccos -> principal branch; arctan2 -> direction of (x,y)",
               "np.random.rand -> fresh symbols in [0,1)", "np.linalg.eigh (Rotation.as_vector) -> spectrum contract of (4vv^T-I)/3",
               "np.linalg.eig on concrete 3x3 rotations runs in real LAPACK"],
@@ -47,7 +47,8 @@ def instances(tier):
         out.append(("scale_factory", {"n": n, "case": "different"}))
         out.append(("scale_factory", {"n": n, "case": "zero"}))
         out.append(("scale_factory", {"n": n, "case": "scalar"}))
-    out.append(("tcoords", {}))
+    for shp in ([2, 2], [3, 5], [480, 640], [7, 2], [1000, 3]) if tier != "quick" else ([2, 2], [3, 5], [480, 640]):
+        out.append(("tcoords", {"shape": shp}))
     return out
 
 
@@ -334,8 +335,7 @@ def scale_factory(F, ob, cfg):
 def tcoords(F, ob, cfg):
     from menpo.transform import Homogeneous, image_coords_to_tcoords, tcoords_to_image_coords
 
-    h = F.symint("h", 2, 512)
-    w = F.symint("w", 2, 512)
+    h, w = K.const(F, cfg["shape"]) if F.sym else cfg["shape"]
     shape = (h, w)
     t2i = tcoords_to_image_coords(shape)
     i2t = image_coords_to_tcoords(shape)
